@@ -2,10 +2,11 @@ package main
 
 import (
 	"context"
-	"runtime"
 	"fmt"
+	"runtime"
 	"strings"
 	"sync"
+	"time"
 
 	"github.com/spikeekips/mitum/base"
 	"github.com/spikeekips/mitum/isaac"
@@ -72,6 +73,10 @@ func runC38(c *Ctx) error {
 				}
 				toks = append(toks, fmt.Sprintf("c:%d", dP))
 				outs = append(outs, "-")
+				// a proposal re-made in the same millisecond for the same position is byte-identical (same
+				// proposedAt/signedAt, deterministic signature); let the clock advance so that "made again
+				// after the pool forgot it" is distinguishable
+				time.Sleep(2 * time.Millisecond)
 				continue
 			}
 			switch {
